@@ -97,6 +97,14 @@ Complete(cfg, s, i, outcome) ==
             LET u == Update(cfg, s1, AddDropped(s1.win, l.inat)) IN
             [st |-> u.st, res |-> [ok |-> TRUE, samples |-> u.samples, inflight |-> -1]]
 
+(* A burst: several outstanding calls complete at once, from different goroutines.  Every completion is one atomic  *)
+(* fold under the limiter's mutex, so - as long as the window cannot become ready in mid-burst (EnabledL), which is    *)
+(* where the order would matter - the outcome is that of completing them one after the other: no completion is lost, *)
+(* none is folded twice.  items[k].i indexes the outstanding calls left after the first k-1 items.                    *)
+RECURSIVE BurstFrom(_, _, _, _)
+BurstFrom(cfg, s, items, k) ==
+  IF k > Len(items) THEN s ELSE BurstFrom(cfg, Complete(cfg, s, items[k].i, items[k].outcome).st, items, k + 1)
+
 ApplyL(cfg, s, op) ==
   CASE op.op = "acq" -> Acquire(cfg, s, op.key)
     [] op.op = "adv" -> [st |-> [s EXCEPT !.rem = Max(-1, @ - op.d),
@@ -105,11 +113,17 @@ ApplyL(cfg, s, op) ==
     [] op.op = "comp" -> Complete(cfg, s, op.i, op.outcome)
     \* the algorithm's estimate moves without a sample of this limiter (an explicit set, a limit shared with another
     \* limiter): nothing is enforced yet - the next sample-driven update must pick it up (C05)
+    [] op.op = "burst" -> [st |-> BurstFrom(cfg, s, op.items, 1), res |-> [ok |-> TRUE, samples |-> <<>>, inflight |-> -1]]
     [] op.op = "ext" -> [st |-> [s EXCEPT !.est = op.v, !.moved = TRUE],
                          res |-> [ok |-> TRUE, samples |-> <<>>, inflight |-> -1]]
 
 EnabledL(cfg, s, op) ==
-  IF op.op = "comp" THEN op.i \in 1..Len(s.ls) ELSE TRUE
+  IF op.op = "comp" THEN op.i \in 1..Len(s.ls)
+  ELSE IF op.op = "burst"
+       THEN /\ Len(op.items) <= Len(s.ls)
+            /\ \A k \in 1..Len(op.items) : op.items[k].i \in 1..(Len(s.ls) - (k - 1))
+            /\ s.win.count + Len(op.items) <= cfg.wsize
+       ELSE TRUE
 
 (* what the harness reads back after each call *)
 ObsL(cfg, s) ==
